@@ -1,6 +1,7 @@
 package rules
 
 import (
+	"go/constant"
 	"go/token"
 
 	"golang.org/x/tools/go/ssa"
@@ -70,91 +71,108 @@ func (c *Ctx) inmemClassEdges(r *inmemRoles, r1, r2 string) {
 		}
 		return ""
 	}
-	presence := func(b *ssa.BasicBlock, want bool) bool {
-		return ir.HasFact(b, func(f ir.Fact) bool {
-			ff := f.StripNot()
-			ex, ok := ff.Cond.(*ssa.Extract)
-			if !ok || ex.Index != 1 || ff.True != want {
-				return false
+	var presenceFact func(f ir.Fact, want bool) bool
+	presenceFact = func(f ir.Fact, want bool) bool {
+		ff := f.StripNot()
+		if phi, isPhi := ff.Cond.(*ssa.Phi); isPhi && !want && !ff.True {
+			// "ok" of the lookup, cleared on the expired path: false means absent, or expired and dropped
+			all := len(phi.Edges) > 0
+			for _, e := range phi.Edges {
+				if c, isC := e.(*ssa.Const); isC && c.Value != nil && c.Value.Kind() == constant.Bool && !constant.BoolVal(c.Value) {
+					continue
+				}
+				if !presenceFact(ir.Fact{Cond: e, True: false}, false) {
+					all = false
+				}
 			}
-			switch t := ex.Tuple.(type) {
-			case *ssa.Lookup:
-				_, isRecs := loadOfField(t.X, r.recs)
-				return isRecs
-			case *ssa.Call:
-				return r.liveHelpers[ir.StaticCallee(t)]
-			}
+			return all
+		}
+		ex, ok := ff.Cond.(*ssa.Extract)
+		if !ok || ex.Index != 1 || ff.True != want {
 			return false
-		})
+		}
+		switch t := ex.Tuple.(type) {
+		case *ssa.Lookup:
+			_, isRecs := loadOfField(t.X, r.recs)
+			return isRecs
+		case *ssa.Call:
+			return r.liveHelpers[ir.StaticCallee(t)]
+		}
+		return false
 	}
-	expired := func(b *ssa.BasicBlock) bool {
-		for d := b; d != nil; d = d.Idom() {
+	presence := func(e ir.ExitPoint, want bool) bool {
+		return e.HasFact(func(f ir.Fact) bool { return presenceFact(f, want) })
+	}
+	expired := func(e ir.ExitPoint) bool {
+		if e.Edge != nil && r.expiryEdge(e.Block, e.Edge) == expiredEdge {
+			return true
+		}
+		for d := e.Block; d != nil; d = d.Idom() {
 			if len(d.Preds) == 1 && r.expiryEdge(d.Preds[0], d) == expiredEdge {
 				return true
 			}
 		}
 		return false
 	}
-	check := func(name, class, what string, edge func(b *ssa.BasicBlock) bool) {
+	versionCmp := func(e ir.ExitPoint, op token.Token) bool {
+		return e.HasFact(func(f ir.Fact) bool {
+			cm, ok := f.Cmp()
+			return ok && cm.Op == op && ir.LoadedField(cm.X) == r.recVersion && ir.LoadedField(cm.Y) == r.recVersion
+		})
+	}
+	check := func(name, class, what string, edge func(e ir.ExitPoint) bool) {
 		fn := r.storage[name]
 		ok := false
 		idx := ir.ErrResultIndex(fn)
-		for _, ret := range ir.Returns(fn) {
-			if sentinel(ir.ResultValue(ret, idx)) == class && edge(ret.Block()) {
+		for _, e := range ir.ExitPoints(fn) {
+			if sentinel(e.Result(idx)) == class && edge(e) {
 				ok = true
 			}
 		}
 		c.Decide(r1, fn, name+": "+what+" -> "+class, nil, ok, "the in-memory "+name+" does not return "+class+" on the edge where "+what)
 	}
-	absentOrExpired := func(b *ssa.BasicBlock) bool { return presence(b, false) || expired(b) }
-	check("Create", "ErrExist", "the key is present", func(b *ssa.BasicBlock) bool { return presence(b, true) })
+	absentOrExpired := func(e ir.ExitPoint) bool { return presence(e, false) || expired(e) }
+	check("Create", "ErrExist", "the key is present", func(e ir.ExitPoint) bool { return presence(e, true) })
 	check("Get", "ErrNotExist", "the key is missing", absentOrExpired)
 	check("Delete", "ErrNotExist", "the key is missing", absentOrExpired)
 	check("CasByVersion", "ErrNotExist", "the key is missing", absentOrExpired)
-	check("CasByVersion", "ErrConflict", "stored version != expected version", func(b *ssa.BasicBlock) bool {
-		return hasFactCmp(b, func(cm ir.Cmp) bool {
-			return cm.Op == token.NEQ && ir.LoadedField(cm.X) == r.recVersion && ir.LoadedField(cm.Y) == r.recVersion
-		})
-	})
+	check("CasByVersion", "ErrConflict", "stored version != expected version", func(e ir.ExitPoint) bool { return versionCmp(e, token.NEQ) })
 	// a class is returned only on its deciding edge
 	{
 		fn := r.storage["CasByVersion"]
-		for _, ret := range ir.Returns(fn) {
-			if sentinel(ir.ResultValue(ret, 1)) == "ErrConflict" {
-				ok := hasFactCmp(ret.Block(), func(cm ir.Cmp) bool {
-					return cm.Op == token.NEQ && ir.LoadedField(cm.X) == r.recVersion && ir.LoadedField(cm.Y) == r.recVersion
-				}) && presence(ret.Block(), true)
-				c.Decide(r1, fn, "ErrConflict only for a present record with another version", ret, ok, "CasByVersion reports ErrConflict on a path where no stored record was compared: for a missing key the contract says ErrNotExist")
+		for _, e := range ir.ExitPoints(fn) {
+			if sentinel(e.Result(1)) == "ErrConflict" {
+				ok := versionCmp(e, token.NEQ) && presence(e, true)
+				c.Decide(r1, fn, "ErrConflict only for a present record with another version", e.Ret, ok, "CasByVersion reports ErrConflict on a path where no stored record was compared: for a missing key the contract says ErrNotExist")
 			}
 		}
 	}
 	// no success on those edges: a CAS success exit is dominated by version equality
 	{
 		fn := r.storage["CasByVersion"]
-		for _, ret := range ir.Returns(fn) {
-			if ir.ClassifyErr(ir.ResultValue(ret, 1), ret.Block()) != ir.ErrNil {
+		for _, e := range ir.ExitPoints(fn) {
+			if ir.ClassifyErr(e.Result(1), e.Block) != ir.ErrNil {
 				continue
 			}
-			ok := hasFactCmp(ret.Block(), func(cm ir.Cmp) bool {
-				return cm.Op == token.EQL && ir.LoadedField(cm.X) == r.recVersion && ir.LoadedField(cm.Y) == r.recVersion
-			}) && presence(ret.Block(), true)
-			c.Decide(r1, fn, "CasByVersion succeeds only on equal versions of a present key", ret, ok, "CasByVersion can succeed without the stored version having been compared equal")
+			ok := versionCmp(e, token.EQL) && presence(e, true)
+			c.Decide(r1, fn, "CasByVersion succeeds only on equal versions of a present key", e.Ret, ok, "CasByVersion can succeed without the stored version having been compared equal")
 		}
 		fnC := r.storage["Create"]
-		for _, ret := range ir.Returns(fnC) {
-			if ir.ClassifyErr(ir.ResultValue(ret, 1), ret.Block()) != ir.ErrNil {
+		for _, e := range ir.ExitPoints(fnC) {
+			if ir.ClassifyErr(e.Result(1), e.Block) != ir.ErrNil {
 				continue
 			}
-			c.Decide(r1, fnC, "Create succeeds only for an absent key", ret, presence(ret.Block(), false), "Create can succeed although the key was not seen to be absent")
+			c.Decide(r1, fnC, "Create succeeds only for an absent key", e.Ret, presence(e, false), "Create can succeed although the key was not seen to be absent")
 		}
 	}
 	if r2 != "" {
 		fn := r.storage["Create"]
-		for _, ret := range ir.Returns(fn) {
-			if sentinel(ir.ResultValue(ret, 1)) != "ErrExist" {
+		for _, e := range ir.ExitPoints(fn) {
+			ret := e.Ret
+			if sentinel(e.Result(1)) != "ErrExist" {
 				continue
 			}
-			v := ir.Resolve(ir.ResultValue(ret, 0))
+			v := ir.Resolve(e.Result(0))
 			okV := false
 			if ir.LoadedField(v) == r.recVersion {
 				for _, o := range pairFieldOrigins(v) {
